@@ -314,6 +314,73 @@ func init() {
 		p.addObs("context")
 		p.addObs("ok")
 	}, replay: c09Replay})
+	// position independence over long inputs: esc(pre + x + post) == esc(pre) + esc(x) + esc(post) where pre is
+	// n repetitions of a plain byte, of a 2-byte escape, of a 6-byte escape, of a 2-byte rune or of an invalid byte,
+	// for EVERY n up to 300 - so that x meets every alignment of any internal staging buffer / chunk of up to
+	// 256 input or output bytes (a fixed-size scratch array that is flushed "when nearly full" fails at one offset only)
+	parts = append(parts, partDef{prop: "C09", name: "c09/long-context", tiers: "qt", run: func(r *runCtx, p *Part) {
+		maxN := 300
+		if r.tier == "thorough" {
+			maxN = 1100
+		}
+		units := []string{"a", "\n", "\x01", "\u00e9", "\xff", "\""}
+		boundary := []byte{0x00, 0x1f, '\n', '"', '\\', 0x7f, 0x80, 0xbf, 0xc2, 0xe2, 0xed, 0xf0, 0xf4, 0xff}
+		var xs []string
+		for c := 0; c < 256; c++ {
+			xs = append(xs, string([]byte{byte(c)}))
+		}
+		for _, a := range boundary {
+			for _, b := range boundary {
+				xs = append(xs, string([]byte{a, b}))
+			}
+		}
+		xs = append(xs, "\u20ac", "\U0001F600", "\xe2\x82", "\xf0\x9f\x98")
+		p.Bounds = fmt.Sprintf("%d strings x (all single bytes, all pairs over 14 boundary bytes, 4 runes/truncated runes) after n repetitions of each of %d units, every n in 0..%d, followed by a 2-byte tail", len(xs), len(units), maxN)
+		buf := &bytes.Buffer{}
+		esc := func(in string) string {
+			buf.Reset()
+			log.WriteLogString(buf, in)
+			return buf.String()
+		}
+		exs := make([]string, len(xs))
+		for i, x := range xs {
+			ex, v := c09Check(buf, x)
+			if v != nil {
+				p.fail(*v, hexOf(x))
+				return
+			}
+			exs[i] = ex
+		}
+		k := 0
+		for _, u := range units {
+			eu, v := c09Check(buf, u)
+			if v != nil {
+				p.fail(*v, hexOf(u))
+				return
+			}
+			for n := 0; n <= maxN; n++ {
+				if k++; k%r.nshards != r.shard {
+					continue
+				}
+				if r.expired() {
+					p.Capped = true
+					return
+				}
+				pre, epre := strings.Repeat(u, n), strings.Repeat(eu, n)
+				for i, x := range xs {
+					p.Executions++
+					in := pre + x + "z\n"
+					if got, want := esc(in), epre+exs[i]+"z\\n"; got != want {
+						p.fail(Violation{Clause: "position-dependent-escaping", Key: fmt.Sprintf("%q after %d x %q", x, n, u),
+							Detail: fmt.Sprintf("WriteLogString of %d x %q + %q + \"z\\n\": output differs from the concatenation of the parts' escapes at byte %d (got ...%q, want ...%q)", n, u, x, firstDiff(got, want), tailAt(got, firstDiff(got, want)), tailAt(want, firstDiff(got, want)))}, hexOf(in))
+					}
+				}
+			}
+		}
+		p.States, p.Transitions = p.Executions, p.Executions
+		p.addObs("position")
+		p.addObs("ok")
+	}, replay: c09Replay})
 	// the reference decoder itself against encoding/json, and the encoders' key/string paths
 	parts = append(parts, partDef{prop: "C09", name: "c09/encoders-and-reference", tiers: "qt", run: func(r *runCtx, p *Part) {
 		p.Bounds = "all strings of length <= 2 over all bytes: reference decoder vs encoding/json; AppendKey/AppendString of both encoders vs WriteLogString"
@@ -408,3 +475,18 @@ type c09Bad struct{ s string }
 func (b c09Bad) MarshalJSON() ([]byte, error) { return nil, errors.New("E:" + b.s) }
 
 func hexOf(s string) string { return hex.EncodeToString([]byte(s)) }
+
+func firstDiff(a, b string) int {
+	n := min(len(a), len(b))
+	for i := 0; i < n; i++ {
+		if a[i] != b[i] {
+			return i
+		}
+	}
+	return n
+}
+
+func tailAt(s string, i int) string {
+	lo, hi := max(0, i-6), min(len(s), i+14)
+	return s[lo:hi]
+}
